@@ -5,7 +5,7 @@
    are root stores, cascade deletes follow a strictly increasing store rank, i.e. no cascade cycle). *)
 From Coq Require Import List NArith Bool Permutation.
 From Storage Require Import Base.Bytes Store.Model Store.Events Store.EventProofs Store.EventAnyProofs
-  Store.TxHooks Store.TxHooksProofs Store.EventsMulti Store.EventMultiProofs Store.TxShared Store.TxSharedProofs.
+  Store.TxHooks Store.TxHooksProofs Store.EventsMulti Store.EventMultiProofs Store.TxShared Store.TxSharedProofs Store.EventsReg Store.EventRegProofs.
 Import ListNotations.
 
 (* A committed transaction delivers, as a multiset, exactly the expected events: for each successful
@@ -128,6 +128,25 @@ Theorem listener_multi_type_invoked_exactly_once : forall sch rkl fuel st t rs s
   Forall (fun p => registered_mode l (ev_change (fst p)) = Some (snd p)) (delivered_to l evs).
 Proof. exact listener_multi_invoked_exactly_once_lemma. Qed.
 Print Assumptions listener_multi_type_invoked_exactly_once.
+
+(* "registered for that change type" is decided WHEN THE REGISTRATION IS MADE.  The listener theorems above take
+   [l_types] as an immutable list; in Go the additional types arrive as the caller's slice (Add*Listener(l, first,
+   sl...): same backing array, same spare capacity) and the adapter ranges over what the library kept whenever an
+   event is delivered.  Store/EventsReg.v models the slices, the built-in append and the registration expression of
+   store_crud.go (append([]EntityEventType{first}, rest...), [reg_pinned]).  For EVERY program of the caller - slices
+   with or without spare capacity, the same slice passed to any number of registrations, cells overwritten at any time
+   before or after - the types read through the slice kept for the registration made after [pre] are, at the end,
+   first :: (the additional types as they were at that moment), and the registrations made before it hold what they
+   held: a later registration or a later write of the caller never changes the kinds of an earlier listener.  So the
+   [l_types] of the theorems above is "the types named in the call".  (The shorter append(rest, first) keeps the
+   caller's array when it has spare capacity: Examples/C08Regs.v shared_slice_alias_refuted.) *)
+Theorem registration_types_fixed : forall spare pre first rest post h1 regs1 hf regsf,
+  run_caller (reg_pinned spare) (heap_empty, []) pre = (h1, regs1) ->
+  run_caller (reg_pinned spare) (h1, regs1) (CRegister first rest :: post) = (hf, regsf) ->
+  nth_error (reg_types (hf, regsf)) (length regs1) = Some (first :: sread h1 rest) /\
+  firstn (length regs1) (reg_types (hf, regsf)) = reg_types (h1, regs1).
+Proof. exact registration_types_fixed_lemma. Qed.
+Print Assumptions registration_types_fixed.
 
 (* constraints (typed and untyped) see every event of their store once *)
 Theorem constraint_invoked_exactly_once : forall sch rkl fuel st t rs st' evs l e,
